@@ -129,7 +129,7 @@ type reader struct {
 	expectChunk         bool
 	expectedChunkLength uint32
 	runningStatus       runningstatus.Reader
-	processedTracks     int16
+	processedTracks     int32 // up to 65535 tracks are possible, int16 would wrap around
 	deltatime           uint32
 	headerIsRead        bool
 	error               error
@@ -141,7 +141,7 @@ func (r *reader) Delta() uint32 {
 }
 
 // Track returns the track for the last MIDI message
-func (r *reader) Track() int16 {
+func (r *reader) Track() int32 {
 	return r.processedTracks
 }
 
